@@ -122,9 +122,13 @@ def run(pm, ctx):
               key='C14-R1|%s|default-ns' % decl.qualname)
     gpv = pm.func(PC + '._generate_python_value')
     rets = [unparse(r.value) for r in own_nodes(gpv.node) if isinstance(r, ast.Return)]
-    ctx.check('C14-R1', sorted(rets) == sorted([
-        "'{}.{}.{}'.format(fmt_namespace(namespace.name), class_name_for_data_type("
-        "value.union_data_type), fmt_var(value.tag_name))", 'fmt_obj(value)']),
+    tagret = [r for r in rets if r != 'fmt_obj(value)']
+    # <module of the union>.<class of the union>.<tag>; which object names the union (the
+    # reference itself or the union behind an alias) is decided by R9
+    ctx.check('C14-R1', 'fmt_obj(value)' in rets and len(tagret) == 1 and
+              tagret[0].startswith("'{}.{}.{}'.format(fmt_namespace(") and
+              'class_name_for_data_type(' in tagret[0] and
+              tagret[0].endswith('fmt_var(value.tag_name))'),
         'defaults render as <ns>.<Union>.<tag> or the literal', gpv.loc,
         msg='client default rendering changed: %s' % rets, key='C14-R1|%s' % gpv.qualname)
     fo = pm.func(PH + '.fmt_obj')
@@ -319,6 +323,7 @@ def run(pm, ctx):
                                               'stone.backends.python_helpers'),
                       False, 'python_client', TOTALITY_PRECONDITIONS, (10, 3, 0))
 
+    client_module_names(pm, ctx)
     ctx.import_rules(pm, 'C02', {'C02-R5'}, 'C14-R6',
                      'required / optional field listings of the IR are complete, parent first, with '
                      'complementary predicates (shared with C02-R5)')
@@ -340,3 +345,93 @@ def _parents_until(node, stop):
     while n is not None and n is not stop:
         yield n
         n = getattr(n, '_parent', None)
+
+
+def client_module_names(pm, ctx):
+    """R7-R10: the names the generated client refers to exist where it looks for them
+    (found after the fifth seeding round; F53-F56)."""
+    # R7: every namespace whose module the route methods name is imported
+    ctx.rule('C14-R7', 'the client imports the module of every namespace it emits route methods for')
+    gi = pm.func(PC + '._generate_imports')
+    conds = []
+    for n in own_nodes(gi.node):
+        if isinstance(n, ast.Call) and call_name(n) == 'emit' and 'import' in unparse(n):
+            conds = [unparse(e) for e, pol in path_info(gi.node).at(n) if pol]
+    tested = set()
+    for c in conds:
+        for x in ast.walk(ast.parse(c, mode='eval')):
+            if isinstance(x, ast.Attribute):
+                tested.add(x.attr)
+    ctx.check('C14-R7', not conds or 'routes' in tested,
+              'the import of a namespace module does not depend on the namespace having data types',
+              gi.loc,
+              msg='python_client imports a namespace module only under %s, but the route methods '
+                  'name <namespace>.<route> for every namespace that has routes: a namespace with '
+                  'routes and no data types gives NameError when its method is called' % conds,
+              key='C14-R7|%s|import-condition' % gi.qualname)
+    # R8: the order of constructor arguments is the same with and without aliases
+    ctx.rule('C14-R8', 'required / optional classification of a field does not depend on whether '
+                       'aliases were stripped (python_types keeps them, python_client does not)')
+    pt_keep = unparse(pm.lookup_class_attr(pm.cls(PT), 'preserve_aliases') or ast.Constant(False))
+    pc_keep = unparse(pm.lookup_class_attr(pm.cls(PC), 'preserve_aliases') or ast.Constant(False))
+    for prop in ('all_required_fields', 'all_optional_fields'):
+        f = pm.func('stone.ir.data_types.Struct.' + prop)
+        src = ' '.join(unparse(n) for n in own_nodes(f.node, include_nested=True)
+                       if isinstance(n, ast.Call))
+        opaque = 'is_nullable_type(f.data_type)' in src and 'unwrap' not in src
+        ctx.check('C14-R8', pt_keep == pc_keep or not opaque,
+                  'Struct.%s sees a nullable type through aliases' % prop, f.loc,
+                  msg='Struct.%s tests is_nullable_type on the declared type: a field whose type '
+                      'is an alias of a nullable type is required for python_types (aliases kept, '
+                      'constructor order) and optional for python_client (aliases stripped, '
+                      'positional construction): the client passes the arguments in another order '
+                      'than the constructor takes them' % prop,
+                  key='C14-R8|stone.ir.data_types.Struct.%s|alias-opaque' % prop)
+    # R9: a name qualified with a namespace module is the name of something of that namespace
+    ctx.rule('C14-R9', 'a class name is qualified with the namespace of the very object it names')
+    n = 0
+    for f in pm.funcs_in('stone.backends.python_client'):
+        for c in own_nodes(f.node):
+            if not (isinstance(c, ast.Call) and isinstance(c.func, ast.Attribute) and
+                    c.func.attr == 'format'):
+                continue
+            ns_args = [a for a in c.args if isinstance(a, ast.Call) and
+                       call_name(a) == 'fmt_namespace']
+            cls_args = [a for a in c.args if isinstance(a, ast.Call) and
+                        call_name(a) in ('class_name_for_data_type', 'fmt_class')]
+            if len(ns_args) != 1 or len(cls_args) != 1:
+                continue
+            n += 1
+            owner = unparse(ns_args[0].args[0])          # X.namespace.name / namespace.name
+            named = unparse(cls_args[0].args[0])
+            named = named[:-5] if named.endswith('.name') else named
+            ok = owner == '%s.namespace.name' % named
+            ctx.check('C14-R9', ok, '%s: %s qualified by its own namespace' % (f.short, named),
+                      '%s:%d' % (f.module.relpath, c.lineno),
+                      msg='%s qualifies the class name of %s with %s: when the two differ (a union '
+                          'reached through an alias of another namespace) the client names a class '
+                          'that module does not define' % (f.short, named, owner),
+                      key='C14-R9|%s|%s' % (f.qualname, named))
+    ctx.floor('C14-R9', n, 1, 'namespace-qualified class names in python_client')
+    # R10: every method name the client emits is covered by the name-conflict check
+    ctx.rule('C14-R10', 'method-name suffixes the client adds are part of the route-name conflict '
+                        'check')
+    suffixes = set()
+    for f in pm.funcs_in('stone.backends.python_client'):
+        for c in own_nodes(f.node):
+            if isinstance(c, ast.Call):
+                for k in c.keywords:
+                    if k.arg == 'method_name_suffix' and isinstance(k.value, ast.Constant) and \
+                            k.value.value:
+                        suffixes.add(k.value.value)
+    chk = pm.func(PH + '.check_route_name_conflict')
+    src = unparse(chk.node)
+    for sfx in sorted(suffixes):
+        ctx.check('C14-R10', repr(sfx) in src or sfx in src,
+                  'the %s variant of a method name is checked for conflicts' % sfx, chk.loc,
+                  msg='python_client also emits <route>%s for download routes, but '
+                      'check_route_name_conflict only compares the plain names: a route named '
+                      '<x>%s next to a download route <x> yields two methods of one name, the '
+                      'second silently replacing the first' % (sfx, sfx),
+                  key='C14-R10|%s|%s' % (chk.qualname, sfx))
+    ctx.floor('C14-R10', len(suffixes), 1, 'method-name suffixes in python_client')
